@@ -149,7 +149,11 @@ def check_excess(fx, rep):
                 elif s[0] == 'bin' and s[1] == 'Add' and {strip(s[2]), strip(s[3])} == {a1, a2} and s[2][0] == 'cast' and s[3][0] == 'cast':
                     ok = True             # widened before adding
                 elif s[0] == 'call' and s[1].endswith('saturating_add') and set(s[2]) == {a1, a2}:
-                    ok = True
+                    # clamping the sum to 2^64-1 BEFORE subtracting is not the definition: for
+                    # excess + used > 2^64-1 and target > 0 it yields 2^64-1-target although
+                    # excess + used - target may still fit
+                    rep.violation('R4-excess', 'expression', 'calc_excess_blob_gas clamps excess + used to u64::MAX before subtracting the target: for (2^64-6, 10, 20) it returns 2^64-21, the definition gives 2^64-16', f.where())
+                    return
     if ok:
         rep.ok('R4-excess', 'expression', 'max(0, excess + used - target)')
     else:
